@@ -19,7 +19,7 @@ RULE = ("deterministic virtual-clock event loop; a real BaseClient (recording se
         "polls happen exactly at delay + k*interval while waiting and never after completion; no callback stays registered. "
         "non-trivial = a run in which at least one event was injected; distinct = hash(pattern, timeout, polling, condition)")
 ASSUMPTIONS = ["exact ties between an event and the timeout instant are excluded by off-grid constants"]
-REQUIRED_EVENTS = ["decoy_reports_from_another_property", "runs_with_a_filter_that_leaves_an_upper_level_open", "runs", "waits_completed_by_event", "waits_timed_out", "waits_still_pending_without_timeout", "polls_observed",
+REQUIRED_EVENTS = ["waits_pending_across_a_client_restart", "decoy_reports_from_another_property", "runs_with_a_filter_that_leaves_an_upper_level_open", "runs", "waits_completed_by_event", "waits_timed_out", "waits_still_pending_without_timeout", "polls_observed",
                    "batches_with_two_matches", "redefinitions_injected", "whole_device_deletions_during_a_wait", "values_written_by_the_client_and_then_confirmed", "runs_in_which_every_message_carries_the_same_timestamp"]
 EXHAUSTIVE_NOTE = "every assignment of the five slot kinds to every grid point x timeouts x polling x conditions (quick: 6 grid points; thorough: 7)"
 
@@ -443,7 +443,118 @@ def one_case(ctx, case):
                    tuple(map(tuple, case["conds"]))), nontrivial=bool(nt))
 
 
+RESTARTS = [(2.25, 4.25), (1.25, 1.75), (0.25, 3.25), (2.75, 6.75), (3.25, 3.5)]
+
+
+def restart_case(ctx, k):
+    """A wait with polling is pending while the application stops its (real, two-connection) Client and starts the same object
+    again - the server was restarted.  The wait goes on: it keeps re-requesting the property at its interval on the NEW control
+    connection, completes with the event that arrives there, and otherwise times out at its instant."""
+    import indi.message as M
+    from indi.client.client import Client
+    from indi.message import def_parts, one_parts
+    from indi.transport.client.tcp import ConnectionHandler as CH
+    from vf.instr import FakeWriter
+    stop_at, start_at = RESTARTS[k % len(RESTARTS)]
+    interval = [1.0, 0.5, 2.0][(k // len(RESTARTS)) % 3]
+    arrives = [start_at + 2.6, None][(k // (3 * len(RESTARTS))) % 2]      # the matching event, on the new connection; or never
+    timeout = 11.25
+    case = {"mode": "restart", "k": k}
+    loop = VirtualClockLoop()
+    errors = []
+    loop.set_exception_handler(lambda l, c: errors.append(repr(c.get("exception") or c.get("message"))))
+    made = []
+
+    class MemConn:
+        async def connect(self, callback, for_blobs=False):
+            r, w = asyncio.StreamReader(), FakeWriter(f"c{len(made)}")
+            h = CH(r, w, callback, for_blobs=for_blobs)
+            made.append((r, w, loop.time(), for_blobs))
+            return h
+
+    out = {}
+
+    def polls(writer):
+        return writer.data.decode("latin1").count('<getProperties') - writer.data.decode("latin1").count('<getProperties version="1.7"/>') \
+            if hasattr(writer, "data") else 0
+
+    async def main():
+        client = Client(MemConn(), MemConn())
+        await client.start()
+        made[0][0].feed_data(M.DefTextVector(device="D", name="P", state="Idle", perm="rw", children=(def_parts.DefText(name="E", value="INIT"),)).to_string())
+        await asyncio.sleep(0.1)
+
+        async def wait():
+            try:
+                ev = await client.waitforevent(device="D", vector="P", element="E", expect="GO", timeout=timeout, polling_enabled=True,
+                                               polling_delay=interval, polling_interval=interval)
+                out["result"] = ("event", loop.time(), getattr(ev, "new_value", None))
+            except Exception as e:
+                out["result"] = ("error", loop.time(), repr(e))
+        t0 = loop.time()
+        task = loop.create_task(wait())
+        await asyncio.sleep(stop_at)
+        client.stop()
+        for r, w, _, _ in made[:2]:
+            r.feed_eof()
+        await asyncio.sleep(start_at - stop_at)
+        await client.start()
+        out["restarted_at"] = loop.time()
+        if arrives is not None:
+            await asyncio.sleep(arrives - start_at)
+            made[2][0].feed_data(M.SetTextVector(device="D", name="P", state="Ok", children=(one_parts.OneText(name="E", value="GO"),)).to_string())
+        await asyncio.sleep(timeout + 2)
+        if not task.done():
+            task.cancel()
+            out.setdefault("result", ("pending", loop.time(), None))
+        out["t0"] = t0
+        out["callbacks"] = len(client.callbacks)
+
+    try:
+        loop.run_until_complete(main())
+    finally:
+        try:
+            pending = asyncio.all_tasks(loop)
+            for t in pending:
+                t.cancel()
+            if pending:
+                loop.run_until_complete(asyncio.gather(*pending, return_exceptions=True))
+        finally:
+            loop.close()
+    ctx.count("waits_pending_across_a_client_restart")
+    kind, at, val = out.get("result", ("pending", None, None))
+    new_ctl = made[2][1] if len(made) > 2 else None
+    sent_new = new_ctl.data.decode("latin1") if new_ctl is not None else ""
+    import re
+    n_polls = len([g for g in re.findall(r"<getProperties[^>]*>", sent_new) if 'device="D"' in g and 'name="P"' in g])
+    t0 = out.get("t0", 0.1)
+    end = (t0 + (arrives if arrives is not None else timeout))
+    # polling ticks fall at t0 + interval * j; those after the restart and before the wait ends go out on the new connection
+    want = [t0 + interval * j for j in range(1, 200) if out.get("restarted_at", 1e9) < t0 + interval * j < end - 1e-9]
+    detail = {"stop_at": stop_at, "start_at": start_at, "interval": interval, "event_at": arrives, "result": [kind, at, val], "loop_errors": errors[:3],
+              "polls_on_the_new_connection": n_polls, "expected": len(want)}
+    if arrives is not None and (kind != "event" or val != "GO" or abs(at - (t0 + arrives)) > 0.05):
+        ctx.violate("restart:wait-does-not-complete-with-the-event-on-the-new-connection", f"the matching report arrived at t={t0 + arrives:.2f} on the restarted "
+                    f"client's control connection; the wait ended with {kind} at {at} ({val})", case, detail)
+        return
+    if arrives is None and (kind != "error" or "imeout" not in str(val) or abs(at - (t0 + timeout)) > 0.05):
+        ctx.violate("restart:no-timeout-at-the-timeout-instant", f"no matching report; the wait ended with {kind} at {at} ({val}), timeout instant {t0 + timeout:.2f}", case, detail)
+        return
+    if n_polls != len(want):
+        ctx.violate("restart:polls-on-the-new-connection-" + ("missing" if n_polls < len(want) else "extra"),
+                    f"after the restart at t={out.get('restarted_at')} the wait (interval {interval}) re-requested the property {n_polls} time(s) on the new "
+                    f"control connection, expected {len(want)} (until t={end:.2f})", case, detail)
+        return
+    if out.get("callbacks"):
+        ctx.violate("restart:callback-left-registered", f"{out['callbacks']} callback(s) still registered after the wait ended", case, detail)
+        return
+    ctx.case_fast(("restart", k))
+
+
 def run(ctx):
+    for k in range(30):
+        if ctx.mine(k):
+            restart_case(ctx, k)
     npoints = 6 if not ctx.thorough else 7
     i = 0
     for pattern in itertools.product(SLOTS, repeat=npoints):
@@ -470,4 +581,7 @@ def exhaustive(ctx):
 
 
 def replay(ctx, case):
+    if case.get("mode") == "restart":
+        restart_case(ctx, case["k"])
+        return
     one_case(ctx, case)
